@@ -98,7 +98,9 @@ SubstVars(e, sol) ==
     ELSE WithKids(e, [i \in 1..Len(Kids(e)) |-> SubstVars(Kids(e)[i], sol)])
 
 JudgeSolve(eqs, unknowns, res) ==
-    LET det == IF Len(eqs) = 2 THEN Det2(eqs[1], eqs[2]) ELSE (eqs[1].a1 - eqs[1].r1) IN
+    \* one equation for the two unknowns is under-determined: like a singular 2x2 system it
+    \* determines no unique values
+    LET det == IF Len(eqs) = 2 THEN Det2(eqs[1], eqs[2]) ELSE 0 IN
     IF res.r = "unser" THEN "SKIP"
     ELSE IF res.r = "err" THEN "REFUSED"
     ELSE IF \E i \in 1..Len(unknowns) : ~\E j \in 1..Len(res.sol) : res.sol[j].name = unknowns[i]
